@@ -27,6 +27,18 @@ def run(ctx, replay):
         rec = dict(kind="panic" if e["panic"] else ("rejected-or-accepted-wrongly" if (e["err"] != "") != (e["cls"] in ("truncation", "wrongtype")) else "wrong-fields-or-display"),
                    dec=e["dec"], path=e["path"], cls=e["cls"])
         ctx.violation(rec, dict(event=e))
+    # the same cases in a 32-bit build of the library (int and uint are 32 bits wide there)
+    # and as a static binary in an empty root directory (no time zone database, no environment)
+    variants = [] if replay else [("GOARCH=386", ctx.trace_32bit(["c05"], trace)), ("static binary in an empty root directory", ctx.trace_bare(["c05"], trace))]
+    for build, tv in variants:
+        if not tv:
+            continue
+        evv = vlib.read_ndjson(tv)
+        resv = ctx.tlc_trace("C05_Trace", "C05_Trace.cfg", tv, timeout=1200)
+        ctx.traces += 1
+        for i in resv["bad"]:
+            e = evv[i - 1]
+            ctx.violation(dict(kind="other-build-or-environment", dec=e["dec"], path=e["path"], cls=e["cls"]), dict(event=e, build=build))
     return ctx.finish(
         level="model_checking",
         rule="one case = (frame, decoder 1005/1006, path decoder|handler, log level); frames built from all extreme values (-2^37, -2^37+1, -1, 0, 1, "
